@@ -83,7 +83,31 @@ def implBits : Array Bool := #[
   true, false,   -- 73: longest anyAs=T anyCps=T
   false, false,   -- 74: backtrack
   false, true,   -- 75: fail
-  true, false   -- 76: py
+  true, false,   -- 76: py
+  false, true,   -- 77: apply a=FF b=FF
+  false, true,   -- 78: apply a=FF b=FT
+  false, true,   -- 79: apply a=FF b=TF
+  false, true,   -- 80: apply a=FF b=TT
+  false, true,   -- 81: apply a=FT b=FF
+  false, true,   -- 82: apply a=FT b=FT
+  false, true,   -- 83: apply a=FT b=TF
+  false, true,   -- 84: apply a=FT b=TT
+  false, true,   -- 85: apply a=TF b=FF
+  false, true,   -- 86: apply a=TF b=FT
+  true, false,   -- 87: apply a=TF b=TF
+  true, false,   -- 88: apply a=TF b=TT
+  false, true,   -- 89: apply a=TT b=FF
+  false, true,   -- 90: apply a=TT b=FT
+  true, false,   -- 91: apply a=TT b=TF
+  true, false,   -- 92: apply a=TT b=TT
+  false, false,   -- 93: optable prefix=F operands=FF
+  false, true,   -- 94: optable prefix=F operands=FT
+  true, false,   -- 95: optable prefix=F operands=TF
+  true, false,   -- 96: optable prefix=F operands=TT
+  false, true,   -- 97: optable prefix=T operands=FF
+  false, true,   -- 98: optable prefix=T operands=FT
+  true, false,   -- 99: optable prefix=T operands=TF
+  true, false   -- 100: optable prefix=T operands=TT
 ]
 
 def implFlags : Sourcer.FlagTable := Sourcer.FlagTable.ofBits implBits
